@@ -7,12 +7,22 @@ ORACLE on PAIRS of real implementation runs built from one scenario:
   sessions     sessions / recompute events listed in a permuted order      -> per-session / per-station results equal
   shift        every arrival/departure/estimate/recompute/script entry +k  -> outputs shifted by k, first k columns 0
   combined     all of the above at once (this run is also compared with the Lean model, drv_C01)
-  hashseed     the same five runs in SUBPROCESSES with three different PYTHONHASHSEED values
+  json_net     the `stations` run with the network replaced by type(net).from_json(net.to_json()) BEFORE the
+               simulator is built                                          -> bitwise identical to the `stations` run
+  json_sim     the `combined` run with the whole simulator replaced by Simulator.from_json(sim.to_json()) BEFORE
+               run() (scheduler re-attached with update_scheduler)         -> bitwise identical to the `combined` run
+  hashseed     the same runs in SUBPROCESSES with three different PYTHONHASHSEED values
 
 A case is  {"sc": <scenario>, "var": {"stations": perm, "constraints": perm, "sessions": perm,
             "recomputes": perm, "shift": k}, "exact": bool, "ties": bool, "hashseeds": [..] | absent}
 <scenario> is the simcase layout (core/simcase.py) with "constraints": [{"name", "coeffs": [[station, c]…], "limit"}]
-instead of the single aggregate "constraint".
+instead of the single aggregate "constraint".  Scheduler types beyond simcase's: every sort order of
+acnportal.algorithms — "fcfs" | "lcfs" | "edf" | "llf" | "lrpt" (SortedSchedulingAlgo) and "rr" (= "rr:fcfs") |
+"rr:<sort>" (RoundRobin).  For these the wrapped algorithm's `before` hook records, per invocation, the fields of
+every active session that the TRUE sort keys are made of (arrival, estimated departure, remaining demand); the
+oracle computes the keys from them and the scenario data (voltage, maximum rate, period) — not through the
+implementation's key functions — and skips the station-order relation only where two sessions that can still
+receive charge have (nearly) EQUAL true keys.
 """
 from __future__ import annotations
 
@@ -41,41 +51,95 @@ REQUIRED_THEOREMS = [
     "Acn.C10.run_shift_from", "Acn.C10.scripted_schedShiftInvariant", "Acn.C10.run_perm_sessions_core", "Acn.C10.anchor_of_event", "Acn.C10.run_perm_sessions",
     "Acn.C10.scripted_ignoresEvsePilot",
     "Acn.C10.run_shift_core", "Acn.C10.run_shift_aligned", "Acn.C10.run_perm_constraints",
-    "Acn.C10.run_perm_sessions_sorted",
+    "Acn.C10.run_perm_sessions_sorted", "Acn.C10.run_equivariant_stations_dict",
+    "Acn.C10.run_equivariant_stations_sorted", "Acn.C10.run_equivariant_stations_uncontrolled",
+    "Acn.C10.run_shift_sorted",
 ]
 BUDGET = {"quick": 200, "thorough": 1600, "search": 1200}
 TRUSTED = ["CPython heapq / sorted (stable) / dict insertion order; numpy `@`, `sum`, `abs` (a changed summation "
            "order may move a double by an ulp: numbers are compared with 1e-9 slack, bitwise on the dyadic stream)",
            "PYTHONHASHSEED nondeterminism is explored with three seeds per scenario, not proved absent",
            "schedulers with a tie in their sort key legitimately depend on the station order (documented, "
-           "counted under feature `tie:*`, not a violation)"]
+           "counted under feature `tie:*`, not a violation); a tie is a tie of the TRUE key (the quantity the sort "
+           "order is defined by, recomputed by the oracle), within 1e-6 — keys one period / one ampere apart or "
+           "closer are NOT ties",
+           "JSON-restored runs: the scheduler is not part of the serialised state (DESIGN §8) and is re-attached "
+           "with Simulator.update_scheduler; the harness network subclass (occupancy log) travels as an extra "
+           "JSON attribute"]
 ASSUMPTIONS = ["theorems: exact arithmetic over a linear ordered field; Valid layouts; the scheduler is equivariant "
                "(scripted by station name, uncontrolled, sorted with distinct keys) resp. depends on the view only "
                "through relative time (shift)",
                "shift: the idle prefix does not abort (an EVSE with min_rate > 0 refuses pilot 0 in period 0 of ANY "
                "scenario, DESIGN §8: such scenarios are excluded from the shift relation only)",
                "random draws are an input stream consumed in station order: the station-permutation relation is "
-               "claimed for a constant stream"]
+               "claimed for a constant stream",
+               "shift with max_recompute = m: proved when something is due in period 0 (run_shift_anchored; the "
+               "generator anchors scripted scenarios with an event at 0) or m | k (run_shift_aligned); false otherwise "
+               "(counter-example after run_shift_core)",
+               "stations x sorted algorithms (run_equivariant_stations_sorted): interruptible, no rampdown estimator, no "
+               "view of the run with a tie in the sort key; uninterrupted_charging=True is checked on implementation "
+               "pairs only",
+               "JSON round trip (json_net / json_sim pairs): implementation pairs only — the simulator model has no "
+               "JSON text, C09 owns the codec; claimed here: a network or a not-yet-run simulator restored with "
+               "from_json(to_json()) is the same input (same per-station / per-session results)"]
 RULE = ("scenario = 1-6 stations with non-sorted ids, mixed EVSE classes, voltages, phases in {0,30,-90,150}; 0-4 "
         "constraints with coefficients in {1,-1,0.5,2} over random station subsets and limits off level boundaries; "
         "0-12 sessions laid out per station (half back-to-back), arrivals from a small range (many ties) except "
-        "for sorted schedulers (distinct arrivals and departures = distinct sort keys; a separate `ties` stream "
-        "keeps ties and skips the station-permutation comparison); schedulers scripted-by-station-name / empty / "
-        "UncontrolledCharging / SortedSchedulingAlgo(fcfs, edf) / RoundRobin(fcfs); every 5th case dyadic "
-        "(phase 0, coefficients ±1, dyadic pilots and limits: bitwise comparison); 8% malformed; per case random "
-        "permutations of stations, constraints, sessions, recomputes and a shift k in 0..30; two targeted streams "
-        "(10% each) for the sorted algorithms' preprocessing: `tight` = uninterrupted_charging on finite-rate EVSEs "
+        "for sorted schedulers (pairwise distinct arrivals, departures and estimated departures — 30% of the "
+        "sessions carry an estimate != departure —, so the static sort keys are distinct and adjacent values one "
+        "period apart are common; a separate `ties` stream keeps ties and skips the station-permutation "
+        "comparison); schedulers (cycle of 24) scripted-by-station-name / empty (7) / UncontrolledCharging (2) / "
+        "SortedSchedulingAlgo with EVERY sort order fcfs, lcfs, edf, llf, lrpt (5) / RoundRobin(fcfs) and "
+        "RoundRobin(any sort) (2, mostly finite-rate EVSEs: it walks a continuous one in 0.1 A steps); every 5th "
+        "case dyadic (phase 0, coefficients ±1, dyadic pilots and limits: bitwise comparison); 8% malformed; per "
+        "case random permutations of stations, constraints, sessions, recomputes and a shift k in 0..30; three "
+        "targeted streams for the sorted algorithms: `tight` (2/24) = uninterrupted_charging on finite-rate EVSEs "
         "(non-zero minimum pilot), 3-4 cars at once, aggregate limit below the sum of the minima, registration "
-        "order unrelated to remaining time; `threshold` = plain FCFS, mixed minimum pilots / voltages (mixed "
-        "finished-thresholds), stations without sessions, demands that leave a last-period remainder between two "
-        "thresholds; on these (<=4 stations) EVERY registration order is run and compared per station id; 35% of "
-        "the other sorted cases use uninterrupted_charging; "
+        "order unrelated to remaining time, any sort order; `threshold` (2/24) = plain FCFS, mixed minimum pilots / "
+        "voltages (mixed finished-thresholds), stations without sessions, demands that leave a last-period "
+        "remainder between two thresholds; `contested` (3/24: llf, lrpt, any sort incl. RoundRobin) = 2-4 "
+        "non-interchangeable stations, an aggregate limit that cannot carry every car at its maximum (+ a "
+        "sub-feeder half of the time), one long session per station overlapping all others plus follow-ups, demands "
+        "of 30-95% of the stay, re-scheduled every 1-2 periods, so that the queue ORDER decides who charges and the "
+        "state-dependent keys of LLF / LRPT drift past each other: DISTINCT true keys less than one period apart "
+        "occur in most of these runs (features keys:within_1 / keys:within_0.1); on the targeted streams (tight / "
+        "threshold <=4, contested <=3 stations) EVERY registration order is run and compared per station id; 35% "
+        "of the other sorted cases use uninterrupted_charging. TRUE sort keys: the wrapped algorithm records arrival, "
+        "estimated departure and remaining demand of every active session per invocation; the oracle computes each "
+        "order's key from them and the scenario (voltage, maximum rate, period), never through the implementation's "
+        "key functions, and abstains from the station relation only when two sessions that can still receive "
+        "charge have keys within 1e-6 (feature keys:tied). JSON: every case also runs its `stations` variant from "
+        "a network restored with from_json(to_json()) and its `combined` variant from a whole simulator restored "
+        "before run() (ids are registered in random, mostly non-alphabetical order; stations mostly not "
+        "interchangeable: features json_*:non_alphabetical_registration, stations:not_interchangeable), compared "
+        "per id, bitwise while the round trip keeps station and constraint order; hash-seed subprocess runs for "
+        "every 8th case in the quick tier, every case in the thorough tier; "
         "non-trivial = >=2 stations under a non-identity station permutation, >=2 sessions and energy delivered; "
         "distinct by hash of the case")
 
 PHASES = [0, 30, -90, 150]
 LIMITS = [40.3, 64.7, 23.9, 200.1, 1000.0, 31.9, 15.7]
 DY_LIMITS = [40.5, 64.25, 24.0, 200.0, 1000.0, 32.0, 16.0]
+
+# every sort order of acnportal/algorithms/sorted_algorithms.py:449-555
+SORTS = ("fcfs", "lcfs", "edf", "llf", "lrpt")
+SORTED_TYPES = SORTS + ("rr",) + tuple("rr:" + s for s in SORTS)
+
+
+def sort_of(sched):
+    """(sort order, is RoundRobin) of a sorted scheduler spec, None for the other schedulers"""
+    t = (sched or {}).get("type")
+    if t == "rr":
+        return "fcfs", True
+    if isinstance(t, str) and t.startswith("rr:") and t[3:] in SORTS:
+        return t[3:], True
+    if t in SORTS:
+        return t, False
+    return None
+
+
+def _any_sorted(rng):
+    return rng.choice(SORTS + SORTS + tuple("rr:" + s for s in SORTS))
 
 
 # ------------------------------------------------------------------------------- scenarios
@@ -117,11 +181,17 @@ def gen_scenario(rng, algo=None, exact=False, ties=False, malformed=False):
     stations = []
     for sid in ids:
         kind = _dyadic_kind(rng) if exact else S.gen_kind(rng)
-        if algo in ("fcfs", "edf", "rr"):
+        if algo in SORTED_TYPES:
             if kind["t"] == "cont" and kind["max"] == "inf":
                 kind["max"] = 32
             if kind["t"] == "deadband":          # sorted algorithms hand out pilots inside a deadband
                 kind = {"t": "cont", "min": 0, "max": kind["max"]}
+            if sort_of({"type": algo})[1] and kind["t"] == "cont":
+                kind["max"] = min(kind["max"], 32)
+            if sort_of({"type": algo})[1] and kind["t"] == "cont" and rng.random() < 0.75:
+                # RoundRobin walks a continuous EVSE in 0.1 A steps (one feasibility test each): keep most of its
+                # stations finite-rate so that the quick tier stays within its budget
+                kind = {"t": "finite", "rates": list(rng.choice([S.CC_RATES, S.AV_RATES, [10, 16, 24, 32]]))}
         stations.append({"id": sid, "kind": kind, "V": rng.choice([208, 208, 240, 120, 277.5]),
                          "phase": 0 if exact else rng.choice(PHASES)})
     sc = {"stations": stations}
@@ -141,8 +211,8 @@ def gen_scenario(rng, algo=None, exact=False, ties=False, malformed=False):
     total = rng.choice([0, 1, 2, 3, 4, 6, 8, 12])
     horizon0 = rng.choice([0, 2, 4, 8])
     cursor = {s: rng.randint(0, horizon0) for s in ids}
-    distinct = algo in ("fcfs", "edf", "rr") and not ties
-    used_a, used_d = set(), set()
+    distinct = algo in SORTED_TYPES and not ties
+    used_a, used_d = set(), set()            # used_d: departures AND effective estimated departures (EDF / LLF key)
     sessions = []
     tries = 0
     while len(sessions) < total and tries < 60:
@@ -154,15 +224,26 @@ def gen_scenario(rng, algo=None, exact=False, ties=False, malformed=False):
         if distinct and (arr in used_a or dep in used_d):
             cursor[st] = arr + 1 if not any(s["station"] == st and s["departure"] > arr for s in sessions) else cursor[st]
             continue
+        est = None
+        if distinct and not exact and rng.random() < 0.3:
+            # an estimate that differs from the real departure: the key of EDF / LLF is the ESTIMATE (kept distinct)
+            # (an estimate BEFORE the real departure leaves the session with remaining_time 0 while it is still
+            # plugged in: the sorted algorithms then raise IndexError — the same in every run; kept rare)
+            late = (dep + 1, dep + 2, dep + 3) + ((dep - 1,) if rng.random() < 0.15 else ())
+            cand = [e for e in late if e > arr and e not in used_d]
+            est = rng.choice(cand) if cand else None
         used_a.add(arr)
         used_d.add(dep)
+        if est is not None:
+            used_d.add(est)
         cursor[st] = dep
         batt = S.gen_battery(rng)
         if exact:
             batt = {"two": False, "cap": rng.choice([10, 40, 100]), "init": rng.choice([0, 2.5, 8]), "maxp": rng.choice([6.5, 50])}
         elif batt.get("two") and batt.get("noise"):
             batt["noise"] = rng.choice([0, 0.5])
-        est = None if (distinct or ties) else rng.choice([None, None, dep + 1, max(arr + 1, dep - 1)])
+        if not (distinct or ties):
+            est = rng.choice([None, None, dep + 1, max(arr + 1, dep - 1)])
         sessions.append({"session": f"x{len(sessions)}", "station": st, "arrival": arr, "departure": dep,
                          "requested": rng.choice([2.0, 8.5, 30.0]) if exact else round(rng.uniform(0.05, 12), 3),
                          "batt": batt, "est": est})
@@ -269,10 +350,88 @@ def gen_targeted(rng, kind):
     sc["max_recompute"] = 1
     sc["noise"] = [0.0]
     if kind == "tight":
-        sc["sched"] = {"type": rng.choice(["fcfs", "edf", "rr"]), "opts": {"uninterrupted": True}}
+        sc["sched"] = {"type": rng.choice(["fcfs", "edf", "rr", _any_sorted(rng)]), "opts": {"uninterrupted": True}}
     else:
         sc["sched"] = {"type": "fcfs"}
     sc["targeted"] = kind
+    return sc
+
+
+def gen_contested(rng, algo):
+    """The scenario class in which the ORDER of the sorted queue decides who charges, for every sort order:
+    2-4 NON-INTERCHANGEABLE stations (mixed EVSE types, voltages, phases, ids in a random non-alphabetical
+    registration order), one aggregate constraint that cannot carry every car at its maximum (plus, half of the
+    time, a sub-feeder over two stations), one long session per station overlapping all the others (then 0-2
+    follow-up sessions), demands that take 30-95 % of the stay at the maximum rate, the algorithm re-run every
+    period or two.  Arrivals, departures and estimates are pairwise distinct; the keys of LLF / LRPT are real
+    numbers that drift past each other while a car waits (a waiting car loses one period of laxity per period,
+    a charging car's remaining time shrinks), so pairs of DISTINCT keys less than one period apart occur in most
+    runs (feature `keys:within_1`)."""
+    ns = rng.choice([2, 3, 3, 4])
+    ids = _ids(rng, ns)
+    kinds = [{"t": "finite", "rates": list(S.CC_RATES)}, {"t": "finite", "rates": list(S.AV_RATES)},
+             {"t": "finite", "rates": [10, 16, 24, 32]}, {"t": "finite", "rates": [12.5, 20, 30]},
+             {"t": "cont", "min": 0, "max": 32}, {"t": "cont", "min": 0, "max": 16}, {"t": "finite", "rates": list(S.CC_RATES)}]
+    if sort_of({"type": algo})[1]:
+        kinds = [k_ for k_ in kinds if k_["t"] == "finite"]      # RoundRobin walks a continuous EVSE in 0.1 A steps: slow
+    stations = [{"id": sid, "kind": copy.deepcopy(rng.choice(kinds)), "V": rng.choice([208, 240, 120, 277.5]),
+                 "phase": rng.choice([0, 0, 0, 30, -90])} for sid in ids]
+    if len({(json.dumps(st["kind"]), st["V"]) for st in stations}) == 1:
+        stations[0]["V"] = 120 if stations[0]["V"] != 120 else 240
+    sc = {"stations": stations}
+    mx = {st["id"]: float(max(st["kind"]["rates"]) if st["kind"]["t"] == "finite" else st["kind"]["max"]) for st in stations}
+    top, tot = max(mx.values()), sum(mx.values())
+    # well below the sum of the maxima: one or two cars charge, the others wait (and lose laxity) until the order flips
+    lims = [x for x in (20.3, 32.4, 40.3, 47.9, 56.3, 64.7) if top * 0.6 < x < tot * 0.7] or [round(tot / 2 + 0.3, 2)]
+    cons = [{"name": "agg", "coeffs": [[s_, 1] for s_ in rng.sample(ids, ns)], "limit": rng.choice(lims)}]
+    if ns >= 3 and rng.random() < 0.5:
+        pair = rng.sample(ids, 2)
+        cons.append({"name": "feeder", "coeffs": [[pair[0], 1], [pair[1], rng.choice([1, 1, 0.5])]],
+                     "limit": rng.choice([23.9, 31.9, 40.3])})
+        rng.shuffle(cons)
+    sc["constraints"] = cons
+    period = rng.choice([1, 5, 5, 15])
+    arrs = rng.sample(range(0, ns + 2), ns)
+    deps = rng.sample(range(max(arrs) + 5, max(arrs) + 16), ns)
+    used_a, used_d = set(arrs), set(deps)
+    sessions = []
+
+    def add(st, arr, dep):
+        frac = rng.uniform(0.3, 0.95)
+        req = round(frac * (dep - arr) * mx[st["id"]] * I.num(st["V"]) * period / 60 / 1000, 3)
+        est = None
+        if rng.random() < 0.3:
+            cand = [e for e in (dep + 1, dep + 2, dep + 3) if e not in used_d]
+            est = rng.choice(cand) if cand else None
+            if est is not None:
+                used_d.add(est)
+        batt = {"two": False, "cap": 150, "init": 5, "maxp": rng.choice([50, 50, 6.6])}
+        if rng.random() < 0.2:
+            batt = {"two": True, "cap": 150, "init": 20, "maxp": 50, "noise": 0, "ts": 0.8, "calc": rng.choice(["continuous", "stepwise"])}
+        sessions.append({"session": f"x{len(sessions)}", "station": st["id"], "arrival": arr, "departure": dep,
+                         "requested": max(req, 0.05), "batt": batt, "est": est})
+
+    for st, a, d in zip(stations, arrs, deps):
+        add(st, a, d)
+    for _ in range(rng.choice([0, 0, 1, 1, 2])):
+        st = rng.choice(stations)
+        free = max(x["departure"] for x in sessions if x["station"] == st["id"])
+        # a follow-up session on a station that is still needed by the others: arrives while they are charging
+        a = next(t for t in range(free + rng.choice([0, 0, 1]), free + 60) if t not in used_a)
+        d = next(t for t in range(a + rng.choice([3, 5, 8]), a + 80) if t not in used_d)
+        used_a.add(a)
+        used_d.add(d)
+        add(st, a, d)
+    rng.shuffle(sessions)
+    sc["sessions"] = sessions
+    sc["recomputes"] = []
+    sc["period"] = period
+    sc["max_recompute"] = rng.choice([1, 1, 1, 2])
+    sc["noise"] = [0.0]
+    sc["sched"] = {"type": algo}
+    if rng.random() < 0.2:
+        sc["sched"]["opts"] = {"uninterrupted": True}
+    sc["targeted"] = "contested"
     return sc
 
 
@@ -293,7 +452,7 @@ def _perm(rng, n):
 
 
 def gen_case(rng, i=0, tier="quick"):
-    r = i % 20
+    r = i % 24
     exact = (i % 5 == 4)
     ties = False
     malformed = False
@@ -303,33 +462,44 @@ def gen_case(rng, i=0, tier="quick"):
         malformed = (r == 6) and rng.random() < 0.8
     elif r in (7, 8):
         algo = "uncontrolled"
-    elif r in (9, 10):
-        algo = "fcfs"
-    elif r in (11, 12):
-        algo = "edf"
-    elif r in (13, 14):
+    elif r in (9, 10, 11, 12):
+        algo = ("fcfs", "lcfs", "edf", "llf")[r - 9]
+    elif r == 13:
         algo = "rr"
+    elif r == 14:
+        algo = rng.choice(["rr:" + s_ for s_ in SORTS])
     elif r in (15, 16):
         algo, targeted = "x", "tight"
     elif r in (17, 18):
         algo, targeted = "x", "threshold"
-    else:
-        algo = rng.choice(["fcfs", "edf", "rr"])
+    elif r == 19:
+        algo = _any_sorted(rng)
         ties = True
-    if targeted:
+    elif r == 20:
+        algo, targeted = "llf", "contested"
+    elif r == 21:
+        algo, targeted = "lrpt", "contested"
+    elif r == 22:
+        algo, targeted = rng.choice(["llf", "lrpt", "rr:llf", "rr:lrpt", _any_sorted(rng), _any_sorted(rng)]), "contested"
+    else:
+        algo = rng.choice(["lrpt", "lrpt", "llf", "lcfs"])
+    if targeted == "contested":
+        exact = False
+        sc = gen_contested(rng, algo)
+    elif targeted:
         exact = False
         sc = gen_targeted(rng, targeted)
     else:
         sc = gen_scenario(rng, algo, exact=exact and not malformed, ties=ties, malformed=malformed)
-        if algo in ("fcfs", "edf", "rr") and rng.random() < 0.35:
+        if algo in SORTED_TYPES and rng.random() < 0.35:
             sc["sched"]["opts"] = {"uninterrupted": True}
     var = {"stations": _perm(rng, len(sc["stations"])), "constraints": _perm(rng, len(sc["constraints"])),
            "sessions": _perm(rng, len(sc["sessions"])), "recomputes": _perm(rng, len(sc["recomputes"])),
            "shift": rng.choice([0, 1, 1, 2, 3, 5, 7, 13, 30, rng.randint(0, 30)])}
     case = {"sc": sc, "var": var, "exact": bool(exact and not malformed), "ties": ties}
-    if targeted and len(sc["stations"]) <= 4:
+    if targeted and len(sc["stations"]) <= (3 if targeted == "contested" else 4):
         case["allperms"] = True          # every registration order is compared, per station id
-    if tier == "thorough" or i % 6 == 0:
+    if tier == "thorough" or i % 8 == 0:
         case["hashseeds"] = [1, 2, 3]
     return case
 
@@ -413,7 +583,7 @@ def variant(sc, stations=None, constraints=None, sessions=None, recomputes=None,
     return v
 
 
-VARIANTS = ("twice", "stations", "constraints", "sessions", "shift", "combined")
+VARIANTS = ("twice", "stations", "constraints", "sessions", "shift", "combined", "json_net", "json_sim")
 
 
 def variants_of(case):
@@ -425,22 +595,32 @@ def variants_of(case):
         "sessions": variant(sc, sessions=var["sessions"], recomputes=var["recomputes"]),
         "shift": variant(sc, shift=var["shift"]),
         "combined": variant(sc, var["stations"], var["constraints"], var["sessions"], var["recomputes"], var["shift"]),
+        # the same two scenarios again, built from a JSON-restored network / simulator (marker read by build_sim)
+        "json_net": dict(variant(sc, stations=var["stations"]), _restore="net"),
+        "json_sim": dict(variant(sc, var["stations"], var["constraints"], var["sessions"], var["recomputes"], var["shift"]),
+                         _restore="sim"),
     }
 
 
 # ------------------------------------------------------------------------------- implementation
 
 
+class RestoreFailed(Exception):
+    """to_json / from_json of a freshly built network or simulator raised"""
+
+
 def make_scheduler(sc, hooks):
-    """simcase's scheduler, or a sorted algorithm with non-default options
-    (`{"type": "fcfs"|"edf"|"rr", "opts": {"uninterrupted": true}}`)"""
+    """simcase's scheduler (scripted / empty / uncontrolled), or a sorted algorithm of any sort order
+    (`{"type": <sort> | "rr" | "rr:<sort>", "opts": {"uninterrupted": true}}`)"""
     sd = sc.get("sched") or {"type": "empty"}
     opts = sd.get("opts") or {}
-    if not opts:
+    so = sort_of(sd)
+    if so is None:
         return S.make_scheduler(sc, hooks)
     from acnportal import algorithms as A
-    fn = {"fcfs": A.first_come_first_served, "edf": A.earliest_deadline_first, "rr": A.first_come_first_served}[sd["type"]]
-    cls = A.RoundRobin if sd["type"] == "rr" else A.SortedSchedulingAlgo
+    fn = {"fcfs": A.first_come_first_served, "lcfs": A.last_come_first_served, "edf": A.earliest_deadline_first,
+          "llf": A.least_laxity_first, "lrpt": A.largest_remaining_processing_time}[so[0]]
+    cls = A.RoundRobin if so[1] else A.SortedSchedulingAlgo
     inner = cls(fn, uninterrupted_charging=bool(opts.get("uninterrupted")))
     inner.max_recompute = sc.get("max_recompute")
     algo = S.WrappedAlgo(inner, hooks)
@@ -454,11 +634,18 @@ def build_sim(sc):
     from acnportal.acnsim.simulator import Simulator
     from acnportal.acnsim.network.current import Current
     from acnportal.acnsim.events import EventQueue, PluginEvent, RecomputeEvent
+    restore = sc.get("_restore")
     net = S.SnapshotNetwork()
     for st in sc["stations"]:
         net.register_evse(I.make_evse(st["kind"], st["id"]), I.num(st["V"]), I.num(st.get("phase", 0)))
     for con in sc.get("constraints", []):
         net.add_constraint(Current({s: c for s, c in con["coeffs"]}), I.num(con["limit"]), name=con["name"])
+    if restore == "net":
+        # a stored network is still the same input: written out and read back before anything uses it
+        try:
+            net = type(net).from_json(net.to_json())
+        except Exception as e:  # noqa: BLE001
+            raise RestoreFailed(f"network: {type(e).__name__}: {e}")
     evs = [I.make_ev(s) for s in sc["sessions"]]
     events = [PluginEvent(ev.arrival, ev) for ev in evs]
     events += [RecomputeEvent(int(r)) for r in sc.get("recomputes", [])]
@@ -475,23 +662,56 @@ def build_sim(sc):
         feas.append([int(interface.current_time), v])
         return None
 
-    hooks = S.Hooks(after=probe)
+    keys = []
+
+    def record(algo_, interface, sessions):
+        # what the TRUE sort keys are made of, per invocation, in the order the sessions are handed over
+        keys.append([int(interface.current_time),
+                     [[s_.session_id, s_.station_id, float(s_.arrival), float(s_.estimated_departure),
+                       float(s_.remaining_demand)] for s_ in sessions]])
+
+    hooks = S.Hooks(before=record if sort_of(sc.get("sched")) else None, after=probe)
     algo = make_scheduler(sc, hooks)
     sim = Simulator(net, algo, EventQueue(events), S.START, period=I.num(sc["period"]), verbose=False)
-    return sim, {"network": net, "scheduler": algo, "evs": evs, "hooks": hooks, "feas": feas}
+    if restore == "sim":
+        # the whole (not yet run) simulator through JSON; the scheduler is not serialised (by design, DESIGN §8):
+        # it is attached again with the public update_scheduler
+        try:
+            sim = Simulator.from_json(sim.to_json())
+            sim.update_scheduler(algo)
+        except Exception as e:  # noqa: BLE001
+            raise RestoreFailed(f"simulator: {type(e).__name__}: {e}")
+        net = sim.network
+        by_id = {}
+        for _, e in sim.event_queue.queue:
+            if hasattr(e, "ev"):
+                by_id.setdefault(e.ev.session_id, []).append(e.ev)
+        # the restored EV objects, in the listing order of the scenario (equal ids: in queue order)
+        restored = []
+        for ev in evs:
+            lst = by_id.get(ev.session_id)
+            restored.append(lst.pop(0) if lst else ev)
+        evs = restored
+    return sim, {"network": net, "scheduler": algo, "evs": evs, "hooks": hooks, "feas": feas, "keys": keys}
 
 
 def run_scenario(sc):
     """raw `simcase.observe` observation + the station order it refers to"""
     with S.noise_stream(sc.get("noise", [])) as ns:
+        failed = None
         with warnings.catch_warnings():
             warnings.simplefilter("ignore")
-            sim, ctx = build_sim(sc)
-        err = S.run_sim(sim)
+            try:
+                sim, ctx = build_sim(sc)
+            except RestoreFailed as e:
+                failed = str(e)
+                sim, ctx = build_sim({k: v for k, v in sc.items() if k != "_restore"})
+        err = ("RestoreFailed: " + failed) if failed else S.run_sim(sim)
         raw = S.observe(sim, ctx, err)
         raw["noise_draws"] = ns["k"]
     raw["station_ids"] = list(sim.network.station_ids)
     raw["feas"] = list(ctx["feas"])
+    raw["keys"] = list(ctx["keys"])
     raw["constraint_index"] = list(sim.network.constraint_index)
     return raw
 
@@ -508,7 +728,7 @@ def keyed(raw):
         "occ": [{s: row[i] for i, s in enumerate(ids)} for row in raw["occ"]],
         "evs": {e["session"]: e for e in raw["evs"]},
         "events": raw["event_history"], "ev_history": raw["ev_history"], "pending": raw["pending"],
-        "feas": raw["feas"], "station_ids": ids, "constraint_index": raw["constraint_index"], "noise_draws": raw["noise_draws"],
+        "feas": raw["feas"], "keys": raw["keys"], "station_ids": ids, "constraint_index": raw["constraint_index"], "noise_draws": raw["noise_draws"],
     }
 
 
@@ -575,7 +795,7 @@ def _stop_workers():
             pass
 
 
-def hashseed_runs(case):
+def hashseed_start(case):
     seeds = case.get("hashseeds") or []
     c = {k: v for k, v in case.items() if k != "hashseeds"}
     ws = [(_worker(s), s) for s in seeds]
@@ -583,6 +803,10 @@ def hashseed_runs(case):
     for w, _ in ws:
         w.stdin.write(line)
         w.stdin.flush()
+    return ws
+
+
+def hashseed_collect(ws):
     out = {}
     for w, s in ws:
         ans = w.stdout.readline()
@@ -590,10 +814,20 @@ def hashseed_runs(case):
     return out
 
 
+def hashseed_runs(case):
+    return hashseed_collect(hashseed_start(case))
+
+
 def run_impl(case):
-    obs = observe_all(case)
-    if case.get("hashseeds"):
-        obs["hashseed"] = hashseed_runs(case)
+    ws = hashseed_start(case) if case.get("hashseeds") else None      # the workers run while this process does
+    try:
+        obs = observe_all(case)
+    except BaseException:
+        if ws:
+            hashseed_collect(ws)
+        raise
+    if ws:
+        obs["hashseed"] = hashseed_collect(ws)
     return obs
 
 
@@ -714,21 +948,70 @@ def _sorted_history(evs):
     return all(a <= b for a, b in zip(key, key[1:]))
 
 
-def _tie_sensitive(case):
-    """a sorted scheduler whose sort key has a tie among sessions that are connected at the same time"""
+KEY_EDGE = 1e-6        # true keys closer than this (relative to max(1, |key|)) count as tied: the oracle abstains
+
+
+def true_keys(sc, t, rows):
+    """The sort key of every recorded active session as the DEFINITION of the sort order gives it
+    (sorted_algorithms.py docstrings), from scenario data and the session fields — independent of the
+    implementation's key functions:
+      fcfs / lcfs  arrival                           edf   estimated departure
+      lrpt         remaining demand [A*periods] / maximum pilot of the station        (periods)
+      llf          (estimated departure - t) - remaining demand [A*periods] / maximum pilot
+    -> [[session, key, can still receive charge]]"""
+    sort = sort_of(sc["sched"])[0]
+    st = {x["id"]: x for x in sc["stations"]}
+    period = float(I.num(sc["period"]))
+    out = []
+    for sid, station, arr, est, rem in rows:
+        if sort in ("fcfs", "lcfs"):
+            k = arr
+        elif sort == "edf":
+            k = est
+        else:
+            x = st[station]
+            mx = float(max(I.num(r) for r in x["kind"]["rates"]) if x["kind"]["t"] == "finite" else I.num(x["kind"]["max"]))
+            periods = rem * 1000 / float(I.num(x["V"])) * 60 / period / mx
+            k = (est - t) - periods if sort == "llf" else periods
+        out.append([sid, k, rem > 1e-9])
+    return out
+
+
+def key_gaps(sc, obs_run):
+    """smallest gap between the true keys of two sessions that can both still receive charge, over all
+    invocations of one run, and whether some pair is tied within KEY_EDGE -> (gap | None, tied)"""
+    if sort_of(sc["sched"]) is None:
+        return None, False
+    best, tied = None, False
+    for t, rows in obs_run.get("keys") or []:
+        ks = sorted(k for _, k, live in true_keys(sc, t, rows) if live)
+        for a, b in zip(ks, ks[1:]):
+            if best is None or b - a < best:
+                best = b - a
+            if b - a <= KEY_EDGE * max(1.0, abs(a), abs(b)):
+                tied = True
+    return best, tied
+
+
+def _tie_sensitive(case, obs):
+    """a sorted scheduler whose TRUE sort key has a tie among sessions that are connected at the same time:
+    statically (arrival / estimated departure of overlapping sessions) and, for every sort order incl. the
+    state-dependent keys of LLF / LRPT, in the recorded invocations of the base run (within KEY_EDGE)"""
     sc = case["sc"]
-    t = sc["sched"]["type"]
-    if t not in ("fcfs", "edf", "rr"):
+    so = sort_of(sc["sched"])
+    if so is None:
         return False
     ss = sc["sessions"]
-    for i, a in enumerate(ss):
-        for b in ss[i + 1:]:
-            overlap = a["arrival"] < b["departure"] and b["arrival"] < a["departure"]
-            ka = a["arrival"] if t in ("fcfs", "rr") else (a["est"] if a.get("est") is not None else a["departure"])
-            kb = b["arrival"] if t in ("fcfs", "rr") else (b["est"] if b.get("est") is not None else b["departure"])
-            if overlap and ka == kb:
-                return True
-    return False
+    if so[0] in ("fcfs", "lcfs", "edf"):
+        arrival = so[0] != "edf"
+        for i, a in enumerate(ss):
+            for b in ss[i + 1:]:
+                overlap = a["arrival"] < b["departure"] and b["arrival"] < a["departure"]
+                ka = a["arrival"] if arrival else (a["est"] if a.get("est") is not None else a["departure"])
+                kb = b["arrival"] if arrival else (b["est"] if b.get("est") is not None else b["departure"])
+                if overlap and ka == kb:
+                    return True
+    return key_gaps(sc, obs["base"])[1]
 
 
 def pair_relations(case, obs):
@@ -739,7 +1022,7 @@ def pair_relations(case, obs):
     exact = bool(case.get("exact"))
     fe = _first_event(sc)
     k = case["var"]["shift"] if fe is not None else 0      # nothing to shift: run() returns at once
-    tie = _tie_sensitive(case)
+    tie = _tie_sensitive(case, obs)
     res = {}
     res["twice"] = relation(base, obs["twice"], exact=True, same_order=True)
     res["constraints"] = relation(base, obs["constraints"], exact=exact, same_order=True)
@@ -747,6 +1030,16 @@ def pair_relations(case, obs):
         res["constraints"].append("station order changed by a constraint permutation")
     if sorted(obs["constraints"]["constraint_index"]) != sorted(base["constraint_index"]):
         res["constraints"].append("constraint names differ")
+    # a network / simulator written to JSON and read back before use is the same input: identical outputs, same
+    # station order, same constraint order, same event order — whatever the layout, ties or idle prefix
+    # (compared per station / session id like every other pair: a round trip that re-orders stations or constraints
+    # CONSISTENTLY is not a violation; bitwise as long as it keeps both orders, which it does today)
+    for name, ref in (("json_net", "stations"), ("json_sim", "combined")):
+        kept = (obs[name]["station_ids"] == obs[ref]["station_ids"]
+                and obs[name]["constraint_index"] == obs[ref]["constraint_index"])
+        res[name] = relation(obs[ref], obs[name], exact=(True if kept else exact), same_order=valid, error_partial=not kept)
+        if res[name] and not kept:
+            res[name].append(f"(station order after the JSON round trip: {obs[name]['station_ids']}, before: {obs[ref]['station_ids']})")
     idle_ok = _idle_ok(sc)
     if valid:
         # bitwise: neither the station order nor the draw order changes
@@ -794,7 +1087,7 @@ def oracle(case, obs):
 
 def tie_report(case, obs):
     """what happens with ties in a sort key (documented behaviour, not a violation)"""
-    if not _tie_sensitive(case):
+    if not _tie_sensitive(case, obs):
         return None
     d = relation(obs["base"], obs["stations"], exact=False, error_partial=True)
     return "tie:station_order_changes_result" if d else "tie:same_result"
@@ -836,7 +1129,19 @@ def features(case, obs):
         f.append("opt:uninterrupted")
     if case.get("allperms"):
         f.append("allperms")
-    if sc["sched"]["type"] in ("fcfs", "edf", "rr"):
+    if obs["json_net"]["station_ids"] != sorted(obs["json_net"]["station_ids"]):
+        f.append("json_net:non_alphabetical_registration")
+    if obs["json_sim"]["station_ids"] != sorted(obs["json_sim"]["station_ids"]):
+        f.append("json_sim:non_alphabetical_registration")
+    if len({(json.dumps(st["kind"], sort_keys=True), st["V"], st["phase"]) for st in sc["stations"]}) > 1:
+        f.append("stations:not_interchangeable")
+    if sort_of(sc["sched"]):
+        f.append("sort:" + sort_of(sc["sched"])[0] + ("+rr" if sort_of(sc["sched"])[1] else ""))
+        g, tied = key_gaps(sc, obs["base"])
+        if g is not None:
+            f.append("keys:tied" if tied else "keys:within_0.1" if g < 0.1 else "keys:within_1" if g < 1 else "keys:apart")
+        if any(s_.get("est") is not None for s_ in sc["sessions"]):
+            f.append("estimate!=departure")
         rows = obs["base"]["pilots"]
         act = max((sum(1 for s_ in rows if t < len(rows[s_]) and rows[s_][t] > 0) for t in range(max(len(r) for r in rows.values()))), default=0)
         conn = max((sum(1 for v in row.values() if v is not None) for row in obs["base"]["occ"]), default=0)
